@@ -69,8 +69,10 @@ def run_loads(b, cfg, enc, hex_bitmap=False, limit=None) -> Outcome:
     return o
 
 
-def run_reader(image, reader, blocked, enc=None, cfg=None, limit=None, maxlen=None) -> Outcome:
-    """reader: 'VbsReader' | 'IpmReader'"""
+def run_reader(image, reader, blocked, enc=None, cfg=None, limit=None, maxlen=None, style="for") -> Outcome:
+    """reader: 'VbsReader' | 'IpmReader'.  style: how the application drives the iterator -
+    'for' (one for loop), 'next' (next() calls only), 'resume:j' (j records taken with next(), then a for
+    loop over the same reader), 'twice:j' (a for loop left after j records, then a second for loop)"""
     m = sut.load()
     o = Outcome()
     bud = steps.Budget(limit or steps.budget_for(len(image)))
@@ -82,10 +84,41 @@ def run_reader(image, reader, blocked, enc=None, cfg=None, limit=None, maxlen=No
                     r = m["mciipm"].VbsReader(f, blocked=blocked)
                 else:
                     r = m["mciipm"].IpmReader(f, encoding=enc, iso_config=cfg, blocked=blocked)
-                for x in r:
+                def take(x):
                     o.items.append(x)
                     if len(o.items) > 200000:
                         raise steps.StepBudgetExceeded("unbounded iteration")
+                if style == "next":
+                    it = iter(r)
+                    while True:
+                        try:
+                            take(next(it))
+                        except StopIteration:
+                            break
+                elif style.startswith("resume:") or style.startswith("twice:"):
+                    j = int(style.split(":")[1])
+                    ended = False
+                    if style.startswith("resume:"):
+                        for _ in range(j):
+                            try:
+                                take(next(r))
+                            except StopIteration:
+                                ended = True
+                                break
+                    else:
+                        if j > 0:
+                            for x in r:
+                                take(x)
+                                if len(o.items) >= j:
+                                    break
+                            else:
+                                ended = True
+                    if not ended:
+                        for x in r:
+                            take(x)
+                else:
+                    for x in r:
+                        take(x)
         o.kind = "stop"
     except steps.StepBudgetExceeded as ex:
         o.kind = "budget"
